@@ -28,13 +28,20 @@ def parts_norm(parts):
     return p
 
 
-def check_laws(ctx, backend, base, s, a, b, n, x):
+def check_laws(ctx, backend, base, s, a, b, n, x, order=0):
     Y = ctx.yarl(backend)
     try:
         u = Y.URL(base)
     except ValueError:
         ctx.case(False, label="skipped:base-rejected")
         return
+    if order:
+        # a cache-free clone whose accessors are first read in another order (a value planted into the cache by one accessor for another shows)
+        import pickle
+        u = pickle.loads(pickle.dumps(u))
+        seqs = {1: ("parts", "raw_parts", "suffixes", "raw_suffixes", "name", "suffix"), 2: ("suffixes", "suffix", "raw_suffix", "name", "parts"), 3: ("parent", "raw_name", "raw_suffixes", "raw_suffix", "parts", "name")}
+        for acc in seqs[order]:
+            getattr(u, acc)
     rp = u.raw_path
     nontrivial = "%" in rp or "//" in rp or rp.endswith("/") or any(ord(c) > 0x7E or c in " %?#" for c in s + a + b + n + x)
     ctx.case(nontrivial, label="laws", key=(backend, base, s, a, b, n, x))
@@ -51,6 +58,10 @@ def check_laws(ctx, backend, base, s, a, b, n, x):
     nm, rnm = u.name, u.raw_name
     tail = list(u.parts[1:]) if u.raw_parts[:1] == ("/",) else list(u.parts)
     ctx.check(nm == (tail[-1] if tail else ""), "name is not the last part", observed=[nm, list(u.parts)], expected="last part", entry="name")
+    ctx.check(nm == ref.unquote(rnm) and u.suffix == ref.unquote(u.raw_suffix) and (rnm == (u.raw_parts[-1] if (len(u.raw_parts) > 1 or u.raw_parts[:1] != ("/",)) else "")),
+              "name/suffix are not the decoding of raw_name/raw_suffix, or raw_name is not the last raw part", observed=[nm, rnm, u.suffix, u.raw_suffix, list(u.raw_parts)], expected="consistent", entry="name")
+    i = rnm.rfind(".")
+    ctx.check(u.raw_suffix == (rnm[i:] if 0 < i < len(rnm) - 1 else ""), "raw_suffix is not the text from the last inner dot of raw_name", observed=[u.raw_suffix, rnm], expected="tail from the last dot", entry="suffix")
     ctx.check(nm.endswith(u.suffix) and nm.endswith("".join(u.suffixes)) and rnm.endswith(u.raw_suffix) and rnm.endswith("".join(u.raw_suffixes)),
               "suffix/suffixes are not tails of name", observed=[nm, u.suffix, list(u.suffixes)], expected="tails", entry="suffix")
     if u.suffixes:
@@ -140,7 +151,7 @@ def generated(ctx, backend, n):
     txt = gen.text(surrogates=False, max_tokens=4, dots=True)
     seg = st.one_of(txt.map(gen._strip("/")), st.sampled_from(["x", "y.z", "a b", "%41", "é", "..", ".", "", "a%2Fb"]))
     multi = st.one_of(seg, st.lists(seg, min_size=1, max_size=3).map("/".join))
-    ctx.given("laws", {"base": base_strategy(), "s": multi, "a": multi, "b": multi, "n": seg, "x": st.one_of(st.just(""), seg.map(lambda s: s.replace(".", "")), st.sampled_from(["md", "tar.gz", "x y"]))},
+    ctx.given("laws", {"base": base_strategy(), "s": multi, "a": multi, "b": multi, "n": seg, "x": st.one_of(st.just(""), seg.map(lambda s: s.replace(".", "")), st.sampled_from(["md", "tar.gz", "x y"])), "order": st.integers(0, 3)},
               max_examples=n, fixed={"backend": backend})
 
 
